@@ -386,6 +386,12 @@ theorem reply_identity_is_requests (q : WireReq) (e : WireEntry) (segs : List Wi
     (basisReply q sub).id = q.id ∧ (basisReply q sub).question = q.question := by
   simp [hitReply, chaseReply, basisReply]
 
+/-- behind the per-address limiter a reply's cookie is its own query's, whatever
+cookie the address has on record -/
+theorem ratelimit_cookie_is_requests (client r₁ r₂ : Option Nat) :
+    rlReplyCookie client r₁ = client ∧ rlReplyCookie client r₁ = rlReplyCookie client r₂ := by
+  simp [rlReplyCookie]
+
 /-! ### the pooled sub-query writer -/
 
 /-- **A sub-query gets its own response or none.** For any sequence of internal
